@@ -491,10 +491,23 @@ class ExprFormatted(Expr):
 
     value: str | Expr
     """Formatted value."""
+    conversion: int = -1
+    """Conversion applied to the value (ASCII code of `r`, `s` or `a`), `-1` for none."""
+    format_spec: str | Expr | None = None
+    """Format specification (itself a joined string), if any."""
 
     def iterate(self, *, flat: bool = True) -> Iterator[str | Expr]:
         yield "{"
         yield from _yield(self.value, flat=flat, precedence=_Precedence.OR)
+        if self.conversion != -1:
+            yield f"!{chr(self.conversion)}"
+        if self.format_spec is not None:
+            yield ":"
+            if isinstance(self.format_spec, ExprJoinedStr):
+                # The format specification is not written between quotes.
+                yield from _join(self.format_spec.values, "", flat=flat)
+            else:
+                yield from _yield(self.format_spec, flat=flat)
         yield "}"
 
 
@@ -1165,7 +1178,11 @@ def _build_formatted(
     in_formatted_str: bool = False,  # noqa: ARG001
     **kwargs: Any,
 ) -> Expr:
-    return ExprFormatted(_build(node.value, parent, in_formatted_str=True, **kwargs))
+    return ExprFormatted(
+        _build(node.value, parent, in_formatted_str=True, **kwargs),
+        conversion=node.conversion,
+        format_spec=None if node.format_spec is None else _build(node.format_spec, parent, **kwargs),
+    )
 
 
 def _build_generatorexp(node: ast.GeneratorExp, parent: Module | Class, **kwargs: Any) -> Expr:
